@@ -687,6 +687,40 @@ def run(ctx):
                           "and kernel draws differ from the uninterrupted run" if attr_ == "rng" else "history into it: the restored record is dropped"),
                        disc=f"replaced|{attr_}")
     ctx.count("restore_calls_on_resumed_path", len(rest_ev))
+    # ---- nothing between the restore and the loop draws from the restored generator: the uninterrupted run drew nothing between two iterations, so a draw at
+    #      re-entry (a preconditioning fit that sub-samples with self.rng, say) shifts every later resampling and kernel draw
+    def _reads_rng(fn_, depth=0, seen=None):
+        seen = seen if seen is not None else set()
+        if fn_ is None or fn_.ident in seen or depth > 2:
+            return None
+        seen.add(fn_.ident)
+        me_ = fn_.params[0] if fn_.params else "self"
+        for n_ in walk_no_nested(fn_.node):
+            if isinstance(n_, ast.Attribute) and n_.attr == "rng" and isinstance(n_.value, ast.Name) and n_.value.id == me_ and isinstance(n_.ctx, ast.Load):
+                return n_, fn_
+            if isinstance(n_, ast.Call) and isinstance(n_.func, ast.Attribute) and isinstance(n_.func.value, ast.Name) and n_.func.value.id == me_ and fn_.cls is not None:
+                r_ = _reads_rng(fn_.cls.resolve(n_.func.attr), depth + 1, seen)
+                if r_ is not None:
+                    return r_
+        return None
+    pre_calls = [n_ for n_ in walk_no_nested(sample.node) if isinstance(n_, ast.Call) and isinstance(n_.func, ast.Attribute) and isinstance(n_.func.value, ast.Name)
+                 and n_.func.value.id == sample.params[0] and n_.lineno < loop_node.lineno and n_.func.attr not in ("restore_from_checkpoint", "draw_initial_samples")]
+    n_pre = 0
+    for cls_ in [smc] + list(repo.subclasses(smc, strict=True)):
+        for c_ in pre_calls:
+            tgt_ = cls_.resolve(c_.func.attr)
+            if tgt_ is None:
+                continue
+            n_pre += 1
+            hit = _reads_rng(tgt_)
+            if hit is not None:
+                ctx.refute("C11.reentry", sample.ident, loc_of(sample, c_),
+                           f"self.{c_.func.attr}() runs between the restore and the loop and {hit[1].ident.split(':')[1]} reads self.rng (line {hit[0].lineno}): a resumed run draws from the generator "
+                           "whose state was just restored before its first iteration, the uninterrupted run drew nothing at that point -- every later resampling index and kernel draw differs",
+                           disc=f"draws|{cls_.name}.{c_.func.attr}")
+    ctx.count("self_calls_between_restore_and_loop", n_pre)
+    if pre_calls:
+        ctx.prove("C11.reentry", sample.ident, loc_of(sample, pre_calls[0]), f"{n_pre} resolved self-calls between restore and loop checked for draws from the restored generator", disc="draws")
     # ---- the documented resume route reads the proposal from the file: it must be the flow the checkpointed population was weighted under
     from ..report import reuse as _reuse
     from . import c14 as _c14
@@ -1118,6 +1152,7 @@ MUTANTS = [
     M("iteration key renamed on the writer side", _SB, "\"iteration\": iteration,", "\"iter\": iteration,", ("C11.keys", "C11.state")),
     M("checkpoint before mutation", _B, "samples = self.mutate(samples, beta)\n                if store_sample_history:\n                    self.history.sample_history.append(samples)\n                maybe_checkpoint()",
       "maybe_checkpoint()\n                samples = self.mutate(samples, beta)\n                if store_sample_history:\n                    self.history.sample_history.append(samples)", "C11.cut"),
+    M("preconditioning fit sub-samples with the sampler's generator", _SB, "return self.preconditioning_transform.fit(x)", "if len(x) > 5000:\n            x = x[self.rng.choice(len(x), 5000, replace=False)]\n        return self.preconditioning_transform.fit(x)", "C11.reentry"),
     M("per-call generator installed after the checkpoint was restored", _B, "self.target_efficiency = target_efficiency\n", "if checkpoint_callback is not None and hasattr(checkpoint_callback, \"rng\"):\n            self.rng = checkpoint_callback.rng\n        self.target_efficiency = target_efficiency\n", "C11.reentry"),
     M("resumed run re-records the restored population", _B, "if store_sample_history and not resumed:", "if store_sample_history:", "C11.reentry"),
     M("bytes source unsupported", _SB, "elif isinstance(source, bytes):\n            state = pickle.loads(source)\n", "", "C11.src"),
